@@ -1,6 +1,6 @@
 (* C08 -- parallel runs are outcome-equivalent to the serial run.  Statements only. *)
 From Coq Require Import Permutation.
-From DoitV Require Import Base Dispatch Runner RunnerTr OutcomeP.
+From DoitV Require Import Base Dispatch Runner Parallel DispatchP DispatchInv RunnerTr RunnerP ParallelP OutcomeP.
 Open Scope N_scope.
 
 (* The exit code is a function of the multiset of failure kinds that were reported: whatever order
@@ -23,6 +23,42 @@ Theorem C08_final_result_is_code_of_kinds :
   forall ks, fold_left bump ks 0 = code_of_kinds ks.
 Proof. exact final_result_is_code. Qed.
 Print Assumptions C08_final_result_is_code_of_kinds.
+
+(* Hence: a serial run and a parallel run (any flavour, worker count, schedule -- also two parallel runs)
+   that both end normally and made the same failure reports up to order -- in particular runs with the
+   same per-task outcomes -- end with the same exit code. *)
+Theorem C08_same_reports_same_exit_code :
+  forall tasks wr1 cr1 wr2 cr2 continue_ always proc fuel1 fuel2 nprocs sched selection,
+  let rs := run_serial tasks wr1 cr1 continue_ always fuel1 selection in
+  let rp := run_parallel tasks wr2 cr2 continue_ always proc fuel2 nprocs sched selection in
+  snd rs < 3 -> snd rp < 3 ->
+  Permutation (fail_kinds (fst rs)) (fail_kinds (proj (fst rp))) ->
+  snd rs = snd rp.
+Proof.
+  intros tasks wr1 cr1 wr2 cr2 continue_ always proc fuel1 fuel2 nprocs sched selection rs rp Hs Hp Hperm.
+  assert (Es : snd rs = code_of (fst rs)).
+  { destruct (serial_shape tasks wr1 cr1 continue_ always fuel1 selection) as (body & s & _ & _ & [(_ & _ & C)|(Hne & E & C)]);
+      fold rs in C; try fold rs in E.
+    - rewrite C in Hs. discriminate.
+    - destruct s; rewrite C in *; try discriminate; try contradiction.
+      rewrite E. symmetry. apply code_of_noFail.
+      change (EClose :: map ETeardown (rev (filter (has_td tasks) (execs body))) ++ stop_marker StopNormal)
+        with ([EClose] ++ map ETeardown (rev (filter (has_td tasks) (execs body))) ++ []).
+      rewrite !fail_kinds_app. simpl. rewrite app_nil_r.
+      generalize (rev (filter (has_td tasks) (execs body))) as l. induction l as [|a l IH]; auto. }
+  assert (Ep : snd rp = code_of (proj (fst rp))).
+  { destruct (parallel_exit_code tasks wr2 cr2 continue_ always proc fuel2 nprocs sched selection) as [H|H]; [exact H|].
+    fold rp in H. simpl in H. destruct H as [H|[H|[H|[H|[]]]]]; rewrite <- H in Hp; discriminate. }
+  rewrite Es, Ep. apply code_of_perm. exact Hperm.
+Qed.
+Print Assumptions C08_same_reports_same_exit_code.
+
+(* The parallel runners start a task's actions under exactly the serial conditions: once, after every
+   declared dependency ended well (C02_exec_once_parallel, C05_contained_parallel), and report each task
+   at most once (C02_one_final_report_parallel); every failure is removed from the DB before it is
+   reported (C05_failure_removed_parallel).  NOT PROVED: that the SET of per-task outcomes of a
+   parallel run equals that of the serial run when neither is cut short (needs liveness, C09, and the
+   converse of the `recd` invariant); decided by harness/c08.py on real runs. *)
 
 Example C08_nonvacuous :
   code_of [EFailure 1 0; EFailure 2 2; EFailure 3 0] = 2 /\ code_of [EFailure 3 0; EFailure 1 0; EFailure 2 2] = 2 /\
